@@ -11,7 +11,7 @@ def queries(tier):
     col = Q("colour_text", "C20/color.c", units=["mptplot/layout/color_parse.c", "mptplot/layout/color_html.c", "mptplot/layout/color_set.c", "mptcore/convert/convert_int.c", "mptcore/types/type_traits.c", "mptcore/misc/identifier.c", "mptcore/array/array_traits.c", "mptcore/meta/meta_reference_traits.c", "mptcore/event/command_traits.c", "mptcore/array/array_clone.c"],
             harness_defines={"TL": 5 if tier == "quick" else 8}, unwind_default=12, stubs=["libc.c"], flags=["--max-field-sensitivity-array-size", "100"],
             bounds="colour text of <= %d characters over {#,0,8,f,a,g,space,NUL}" % (5 if tier == "quick" else 8), outside="colour names beyond the alphabet; printing")
-    UA = ["mptplot/layout/axis_property.c"] + [u for u in U if "line_property" not in u and "lattr" not in u and "color" not in u]
+    UA = ["mptplot/layout/axis_property.c", "mptplot/layout/string_set.c"] + [u for u in U if "line_property" not in u and "lattr" not in u and "color" not in u]
     ax = [Q("axis_props_%dstep" % n, "C20/axis.c", units=UA, unwind_default=16, fp=[(r"convert", ["h_conv"])], harness_defines={"STEPS": n, "V_NMAX": 128},
             unwind={"harness": 44, "step": 44, "strcmp": 12, "strcasecmp": 12, "strncasecmp": 5, "strlen": 12, "memcmp": 44, "memcpy": 44, "mpt_axis_get": 12, "mpt_property_match": 12},
             flags=["--max-field-sensitivity-array-size", "100"], stubs=["libc.c"],
